@@ -63,8 +63,30 @@ def split_cases(lines):
     return out
 
 
+SPECIAL = [
+    # C15/C17: adapting an fd the poller refuses fails cleanly (slot freed, blocking mode restored)
+    ["case adaptfail_blocking", "mode adaptfail", "blocking 1", "end"],
+    ["case adaptfail_nonblocking", "mode adaptfail", "blocking 0", "end"],
+]
+# the executor is removed while its task, which owns the adapter, is parked: dropping the future drops the adapter,
+# whose Drop re-enters the loop (each of these runs in a process of its own: a panic in a destructor aborts)
+REMOVE_EXEC = [
+    ["case removeexec_parked_reader", "mode read", "blocking 1", "total 100 chunk 10", "finish drop", "probe 0",
+     "settle", "peer 10", "settle", "removeexec", "settle", "end"],
+    ["case removeexec_parked_writer", "mode write", "blocking 0", "total 5000 chunk 1000", "finish intoinner", "probe 1",
+     "settle", "removeexec", "settle", "end"],
+    ["case removeexec_before_first_poll", "mode read", "blocking 0", "total 10 chunk 10", "finish drop", "probe 0",
+     "removeexec", "settle", "end"],
+]
+
+
 def spec_c17(case, trace):
     mode = case[1].split()[1]
+    if mode == "adaptfail":
+        want = "adaptfail err=1 bookkeeping=same nonblock=%d" % (0 if case[2].split()[1] == "1" else 1)
+        if len(trace) < 2 or trace[1] != want:
+            return "adapting an fd the poller refuses: expected `%s`, got `%s`" % (want, trace[1] if len(trace) > 1 else "<nothing>")
+        return None
     blocking = case[2].split()[1] == "1"
     total = int(case[3].split()[1])
     if trace[1] != "created nonblock=1":
@@ -133,13 +155,29 @@ def run_all(cases, have_drv=True):
 
 def comparable(case):
     """the model knows nothing of the socket buffer size: it is compared on reads and on writes that fit"""
+    if case[1] == "mode adaptfail":
+        return True
     total, chunk = int(case[3].split()[1]), int(case[3].split()[3])
     return case[1] == "mode read" or (total <= 65536 and total // max(chunk, 1) <= 100)
 
 
 def run(res, tier, seed, search=False, have_drv=True):
-    cases = gen_cases(tier, seed, search)
+    cases = SPECIAL + gen_cases(tier, seed, search)
     impl, model = run_all(cases, have_drv)
+    # isolated runs: one process per case
+    for c in REMOVE_EXEC:
+        try:
+            i1, m1 = run_all([c], have_drv)
+        except RuntimeError as ex:
+            d = C.write_replay(res.pid, {"case.io": "\n".join(c) + "\n", "verdict.txt": "the harness process died on this case: %s\n" % str(ex)[:600]})
+            res.violations.append(("C17/C08: removing the executor while its task owns a parked adapter killed the process (a panic while "
+                                   "the adapter was dropped inside the loop?)   [%s]" % " ; ".join(c[1:]), os.path.join(d, "case.io")))
+            res.cov["impl_monitor_failures"] += 1
+            continue
+        cases.append(c)
+        impl += i1
+        if model is not None:
+            model += m1
     res.cov["evaluations"] = len(cases)
     res.cov["exhaustive"] = False
     res.cov["rule"] = ("one evaluation = one transfer through a real Async adapter over a socketpair: a reader or writer task on the calloop executor "
